@@ -52,7 +52,7 @@ EnvVals ==
    U16 |-> {IntK("uint16", 65535)}, U32 |-> {IntK("uint32", 70000)}, U64 |-> {IntK("uint64", 3)},
    F32 |-> {Flt("float32", 3, 1)}, F |-> {F64(5, 1), F64(-1, 2), F64(2, 0)}, G |-> {F64(0, 0), F64(1, 1)},
    B |-> {Bool(TRUE), Bool(FALSE)}, C |-> {Bool(TRUE), Bool(FALSE)},
-   S |-> {Str(""), Str("abc"), Str("ab")}, T |-> {Str("b"), Str("abc")},
+   S |-> {Str(""), Str("abc"), Str("ab"), Str("a{|")}, T |-> {Str("b"), Str("abc")},     \* "a{|" is "a" followed by a two-byte rune
    Xs |-> {Arr("nil[]int", <<>>), IntArr(<<1, 2, 3>>), IntArr(<<-2, 2>>)},
    Ys |-> {IntArr(<<2>>), IntArr(<<1, 2, 3>>)},
    Big |-> {IntArr([i \in 1..40 |-> 41 - i])},      \* longer than any small-collection threshold, not sorted
@@ -91,20 +91,27 @@ F_Leaves ==
     [] Family = "access" -> Ints({1, 2}) \cup Strs({"a"}) \cup {L(NNil, "nil"), Mem("O"), Mem("P"), Mem("Os"), Mem("Ps"), Mem("I"), Mem("S"), Mem("Xs"), Mem("Anys"), Mem("F")}
     [] Family = "builtin" -> Ints({0, 1, 2}) \cup Strs({"a"}) \cup {Mem("Xs"), Mem("Ys"), Mem("I"), Mem("Os"), Mem("Ss"),
                               L(NBool(TRUE), "bool"), L(NBool(FALSE), "bool")}
-    [] Family = "nest"   -> Ints({1}) \cup {Mem("Xs"), Mem("Ys")}      \* closures nested three deep
+    [] Family = "nest"   -> Ints({1}) \cup {Mem("Xs"), Mem("Ys"), Mem("Os")}      \* closures nested three deep; a collection reached through the outer element
     [] Family = "mixed"  -> Ints({0, 1, 3}) \cup {L(NBool(TRUE), "bool"), L(NStr("ab"), "string"), L(NNil, "nil"), L(NFloat("1.5", 3, 1), "float64"),
                               Mem("I"), Mem("B"), Mem("S"), Mem("Xs"), Mem("F"), Mem("O"), Mem("P"), Mem("M"), Mem("Any")}
     [] Family = "alloc"  -> Ints({0, 1, 3}) \cup {Mem("I"), Mem("J"), Mem("Xs")}
     [] Family = "calls"  -> Ints({1}) \cup {L(NNil, "nil"), Mem("I"), Mem("P")}
     [] Family = "inlit"  -> Ints({1, 2, 300}) \cup Strs({"a"}) \cup {Mem("I64"), Mem("F"), Mem("K"), Mem("Big"), Mem("U8")}
     [] Family = "ovlt"   -> {Mem("I"), Mem("F")}             \* several overloaded occurrences of different operand types
+    [] Family = "ovlarg" -> Ints({1}) \cup {Mem("I"), Mem("J"), Mem("F")}   \* overloaded occurrences inside arguments of every parameter type
     [] Family = "nest2"  -> Ints({1}) \cup Strs({"a"}) \cup {Mem("Ss"), Mem("Xs"), L(NBool(TRUE), "bool")}
+    \* a literal range larger than the default budget, in positions that are evaluated or not
+    [] Family = "bigrng" -> Ints({0}) \cup {Mem("B"), L(NBin("..", NInt(1), NInt(2000000)), "[]int")}
+    \* a pattern that depends on the element of the enclosing closure
+    [] Family = "pat"    -> Strs({"a"}) \cup {Mem("S"), Mem("Ss")}
+    \* membership in a literal range - ascending, one element, empty - of an operand that may fail
+    [] Family = "inrng"  -> Ints({1, 2}) \cup {Mem("Xs"), Mem("P")}
     \* operations on an operand whose type is known at run time only
     [] Family = "dyn"    -> Ints({0, 1}) \cup Strs({"a"}) \cup {Mem("Any"), Mem("Xs"), L(NBool(TRUE), "bool")}   \* nested closures over different element types
     [] Family = "cexpr"  -> Ints({1}) \cup Strs({"1", "a"}) \cup {L(NFloat("1.0", 1, 0), "float64"), Mem("I")}
     [] Family = "rng"    -> Ints({1, 3}) \cup {Mem("I"), Mem("J")}
     [] Family = "order"  -> Ints({0, 1, 2}) \cup {Mem("Xs"), Mem("I"), Mem("F"), Mem("S"), Mem("I64")}
-    [] Family = "laws"   -> Ints({0, 1, 2, 3}) \cup {Neg1, Mem("Xs"), Mem("Ys"), Mem("I"), Mem("J"), Mem("S"), Mem("Os"), Mem("Anys"),
+    [] Family = "laws"   -> Ints({0, 1, 2, 3}) \cup {Neg1, Mem("Xs"), Mem("Ys"), Mem("I"), Mem("J"), Mem("S"), Mem("Os"), Mem("Anys"), Mem("U64"),
                               L(NBool(TRUE), "bool"), L(NBool(FALSE), "bool")}
     [] Family = "ovl"    -> Ints({1, 2}) \cup {L(NFloat("0.5", 1, 1), "float64"), Mem("B"), Mem("I"), Mem("J"), Mem("F"), Mem("Any"), Mem("Xs"), Mem("Anys"), Mem("S"), Mem("I64")}
     [] Family = "ovlb"   -> Ints({1}) \cup {Mem("B"), Mem("I"), Mem("Xs")}   \* `+` in branches, bounds and sliced operands
@@ -135,8 +142,12 @@ F_BinOps ==
     [] Family = "rng"    -> {".."}
     [] Family = "nest"   -> {">"}
     [] Family = "ovlt"   -> {"+", "*"}
+    [] Family = "ovlarg" -> {"+"}
     [] Family = "nest2"  -> {">", "==", "and"}
     [] Family = "dyn"    -> {"+", "==", "<", "and", "in", "matches", ".."}
+    [] Family = "pat"    -> {"matches"}
+    [] Family = "bigrng" -> {">", "or"}
+    [] Family = "inrng"  -> {"in", "not in", ".."}
     [] Family = "order"  -> {"in", "not in", ".."}
     [] Family = "laws"   -> {">", "==", "%", "/", "and", "in", ".."}
     [] Family = "ovl"    -> {"+", "*", "==", ">"}
@@ -153,6 +164,8 @@ F_Props ==
     [] Family = "oversize" -> {Pr("N", TRUE)}
     [] Family = "calls" -> {Pr("Next", TRUE)}
     [] Family = "laws" -> {Pr("N", FALSE)}
+    [] Family = "inrng" -> {Pr("N", FALSE)}
+    [] Family = "nest" -> {Pr("Tags", FALSE)}
     [] OTHER -> {}
 
 F_Meths ==
@@ -168,6 +181,7 @@ F_Funcs ==
     [] Family = "mixed"  -> {"Id", "Add", "Half"}
     [] Family = "order"  -> {"Id", "Twice"}
     [] Family = "ovl"    -> {"Id", "Half"}
+    [] Family = "ovlarg" -> {"Id", "Half", "AnyId", "Var", "Pair"}
     [] Family = "calls"  -> {"Pair", "Tup", "VarI"}
     [] Family = "cexpr"  -> {"AnyId", "Var", "Cat", "Id"}
     [] Family = "rng"    -> {"Rev", "Sum"}
@@ -182,13 +196,14 @@ F_Builtins ==
     [] Family = "nest" -> {"all", "any", "one", "count", "map"}
     [] Family = "nest2" -> {"all", "any"}
     [] Family = "dyn" -> AllBuiltins
+    [] Family = "pat" -> {"filter", "count", "all", "map"}
     [] Family = "ovl" -> {"map", "filter", "all"}
     [] OTHER -> {}
 
-F_UseLen  == Family \in {"string", "coll", "builtin", "mixed", "alloc", "oversize", "inlit", "rng", "nest", "dyn"}
+F_UseLen  == Family \in {"string", "coll", "builtin", "mixed", "alloc", "oversize", "inlit", "rng", "nest", "dyn", "bigrng"}
 F_AnyColl == Family = "dyn"
-F_UseCond == Family \in {"logic", "mixed", "builtin", "oversize", "ovl", "ovlb"}
-F_UseIdx  == Family \in {"coll", "access", "string", "mixed", "builtin", "ovl", "calls", "rng", "dyn"}
+F_UseCond == Family \in {"logic", "mixed", "builtin", "oversize", "ovl", "ovlb", "bigrng"}
+F_UseIdx  == Family \in {"coll", "access", "string", "mixed", "builtin", "ovl", "calls", "rng", "dyn", "inrng"}
 F_SliceShapes == CASE Family \in {"coll", "string"} -> {"ft", "f", "t", "n"} [] Family = "mixed" -> {"f", "ft"}
                    [] Family = "laws" -> {"f"} [] Family = "ovl" -> {"f"} [] Family = "ovlb" -> {"f", "t"}
                    [] Family = "order" -> {"ft", "f", "t"} [] Family = "dyn" -> {"f", "ft"} [] OTHER -> {}
@@ -196,7 +211,7 @@ F_ArrLens == CASE Family \in {"coll", "mixed", "alloc"} -> {0, 1, 2} [] Family \
                [] Family = "cexpr" -> {1, 2}
                [] Family = "inlit" -> {1, 3} [] Family = "ovconst" -> {3} [] OTHER -> {}
 F_MapLens == CASE Family = "coll" -> {0, 1, 2} [] Family \in {"mixed", "alloc", "ovl"} -> {1} [] OTHER -> {}
-F_ElemLeaves == Family \in {"builtin", "mixed", "alloc", "oversize", "laws", "ovl", "nest", "nest2", "dyn"}
+F_ElemLeaves == Family \in {"builtin", "mixed", "alloc", "oversize", "laws", "ovl", "nest", "nest2", "dyn", "pat"}
 F_OrderGuard == Family # "order"
 
 (* Constructs whose outcome on the pinned tree is a catalogued deviation     *)
@@ -214,8 +229,10 @@ F_Guard(op, l, r, s) ==
   /\ (op \in {"==", "!="} /\ (IsSliceT(l.ty) \/ IsSliceT(r.ty) \/ IsMapTy(l.ty) \/ IsMapTy(r.ty))
         => (r.e.k = "nil" \/ l.e.k = "nil" \/ (l.e.k = "id" /\ r.e.k = "id" /\ l.ty = r.ty)))
   /\ (op \in {"==", "!="} => ~(l.ty = "any" /\ (IsSliceT(r.ty) \/ IsMapTy(r.ty))) /\ ~(r.ty = "any" /\ (IsSliceT(l.ty) \/ IsMapTy(l.ty))))
-  /\ (op \in {"in", "not in"} /\ Family \notin {"order", "laws"} => r.e.k # "bin")
-  /\ (op = "in" /\ Family = "laws" => (l.ty = "int" /\ r.e.k = "bin"))
+  /\ (op \in {"in", "not in"} /\ Family \notin {"order", "laws", "inrng"} => r.e.k # "bin")
+  /\ (op = "in" /\ Family = "laws" => (l.ty \in {"int", "uint64"} /\ r.e.k = "bin"))
+  /\ (op \in {"in", "not in"} /\ Family = "inrng" => (l.ty = "int" /\ r.e.k = "bin" /\ r.e.op = ".."))
+  /\ (op = ".." /\ Family = "inrng" => (l.e.k = "int" /\ r.e.k = "int"))
   /\ (op \in {"in", "not in"} => /\ ~IsSliceT(l.ty) /\ ~IsMapTy(l.ty)     \* no sequence/map looked up in a collection,
                                  /\ (l.ty = "any" => r.e.k = "id"))    \* whatever form the collection takes
   /\ (op = ".." => l.ty # "any" /\ r.ty # "any")
@@ -237,7 +254,7 @@ F_Devs == CASE Family \in {"coll", "mixed"} -> {"Dev_InArrayStringUntyped", "Dev
             [] Family = "string" -> {"Dev_SliceToBeforeFrom"}
             [] Family = "order" -> {"Dev_SliceToBeforeFrom", "Dev_InRangeRewrite"}
             [] Family = "alloc" -> {"Dev_RangeSizeSigned"}
-            [] Family = "laws" -> {"Dev_InRangeRewrite"}
+            [] Family \in {"laws", "inrng"} -> {"Dev_InRangeRewrite"}
             [] Family \in {"access", "promo"} -> {"Dev_RankIntBelowInt8"}   \* any-typed operands: int8 result of I8Id with an int
             [] OTHER -> {}
 
